@@ -5,6 +5,7 @@
 pub mod engine;
 pub mod cy;
 pub mod hist;
+pub mod iosim;
 pub mod model;
 pub mod pv;
 pub mod props;
